@@ -47,7 +47,7 @@ theorem execLocal_refines {d : TState} {o : TOp} {s : TextSt} (wf : WF s) (hd : 
     (hp : Pre d o) (hl : LocalOK o s) {b' : TextSt} (he : execLocal o s = .ok b') :
     WF b' ∧ abs b' = (tapply d o).cells := by
   obtain ⟨sr, h1, h2, h3⟩ := exec_refines wf hd hp
-  obtain ⟨hfr, hto, hfresh, _⟩ := pre_facts wf hd hp
+  obtain ⟨hfr, hto, hfresh, _⟩ := pre_facts wf.toG hd hp
   unfold exec at h1
   unfold execLocal at he
   cases hb : o.body with
@@ -55,7 +55,7 @@ theorem execLocal_refines {d : TState} {o : TOp} {s : TextSt} (wf : WF s) (hd : 
     rw [hb] at h1 he
     simp only at h1 he
     have hfix := hp.2.2.2.2.2.2.2.2.2.2.2.1 content attrs hb
-    obtain ⟨sl, sr', e1, e2, e3⟩ := edit_local_eq_remote (attrs := attrs) (vv := o.vv) wf hfr hto hfresh
+    obtain ⟨sl, sr', e1, e2, e3⟩ := edit_local_eq_remote (attrs := attrs) (vv := o.vv) wf.toG hfr hto hfresh
       hfix hl.1 hl.2.1
     rw [e1] at he; injection he with he
     rw [e2] at h1; injection h1 with h1
@@ -64,7 +64,7 @@ theorem execLocal_refines {d : TState} {o : TOp} {s : TextSt} (wf : WF s) (hd : 
   | style attrs keys =>
     rw [hb] at h1 he
     simp only at h1 he
-    rw [styleOp_local wf hl.2.2, h1] at he
+    rw [styleOp_local wf.toG hl.2.2, h1] at he
     injection he with he; subst he
     exact ⟨h2, h3⟩
 
